@@ -661,3 +661,27 @@ package render
 //@ assigns *
 //@ ensures keeps: @evalkeeps
 //@ ensures tree: @tree
+
+// ---- the include cache is read and written under its lock (C04, C14) -----------------------
+// ASSUMED input (a Config made by NewConfig): the lock and the map exist.
+//@ func (render.Config).cachedSource
+//@ props C14 C04 C01
+//@ panics nothing
+//@ assumes made: c.cacheMu != nil
+//@ assigns nothing
+//@ ghost held Bool = false
+//@ at call RLock #1: held = true
+//@ at call RUnlock #1 before assert heldUntilRead: held
+//@ ensures lookup: result1 == has(c.Cache, path) && (result1 ==> result0 == c.Cache[path])
+//@ ensures locked: held
+
+//@ func (render.Config).CacheSource
+//@ props C14 C04 C01
+//@ panics nothing
+//@ assumes made: c.cacheMu != nil && c.Cache != nil
+//@ assigns M$has$Str$Slc, M$val$Str$Slc
+//@ ghost held Bool = false
+//@ at call Lock #1: held = true
+//@ at call Unlock #1 before assert heldUntilWritten: held && has(c.Cache, path) && c.Cache[path] == source
+//@ ensures cached: has(c.Cache, path) && c.Cache[path] == source
+//@ ensures locked: held
